@@ -626,14 +626,27 @@ def check(tier, args):
     deadline = t0 + budget
     ctx = multiprocessing.get_context('fork')
     aggs, harness = [], []
-    with ProcessPoolExecutor(max_workers=nw, mp_context=ctx) as ex:
-        futs = [ex.submit(worker, (blk, deadline)) for blk in blocks]
-        for f in as_completed(futs):
-            try:
-                aggs.append(f.result())
-            except Exception as e:  # noqa
-                import traceback
-                harness.append(''.join(traceback.format_exception(e))[-2000:])
+
+    def run_pool(todo, dl):
+        gone = []
+        with ProcessPoolExecutor(max_workers=nw, mp_context=ctx) as ex:
+            futs = {ex.submit(worker, (blk, dl)): blk for blk in todo}
+            for f in as_completed(futs):
+                try:
+                    aggs.append(f.result())
+                except Exception as e:  # noqa
+                    gone.append((futs[f], e))
+        return gone
+    gone = run_pool(blocks, deadline)
+    if gone:
+        # a dead worker (watchdog / OOM killer on an overloaded machine)
+        # breaks the pool and loses every unfinished block: run them again
+        print('NOTE: worker pool broke (%r); %d blocks are run again'
+              % (gone[0][1], len(gone)))
+        gone = run_pool([blk for blk, _ in gone], time.time() + budget)
+    for _, e in gone:
+        import traceback
+        harness.append(''.join(traceback.format_exception(e))[-2000:])
     tot = {'programs': 0, 'executions': 0, 'stats': Counter(),
            'violations': [], 'samples': [], 'digests': {}, 'shapes': set(),
            'truncated': False}
